@@ -72,7 +72,9 @@ func c16(p *Pkg, _ *Pkg, payload json.RawMessage, res *Result) {
 				}
 				f.Set(reflect.ValueOf(fn).Convert(f.Type()))
 			}
-			var mws []func(http.Handler) http.Handler
+			// spare capacity behind the user's slice: the generated code must never write there (another API
+			// value may share the backing array)
+			mws := make([]func(http.Handler) http.Handler, 0, n+3)
 			for i := 1; i <= n; i++ {
 				i := i
 				mws = append(mws, func(next http.Handler) http.Handler {
@@ -93,9 +95,20 @@ func c16(p *Pkg, _ *Pkg, payload json.RawMessage, res *Result) {
 				}
 				rec := NewRecorder()
 				pn := Catch(func() { api.ServeHTTP(rec, NewRequest(method, full, "", hdr, nil)) })
+				if pn == "" {
+					for k, f := range mws[:cap(mws)][len(mws):] {
+						if f != nil {
+							pn = fmt.Sprintf("the generated code wrote into the spare capacity of the caller's Middlewares slice (slot %d beyond its length %d) while serving %s %s", k, len(mws), method, full)
+							mws[:cap(mws)][len(mws)+k] = nil
+						}
+					}
+				}
 				return rec, pn
 			}
 			bad := func(kind, in, observed, expected string) {
+				if kind == "panic" && strings.HasPrefix(observed, "the generated code wrote into the spare capacity") {
+					kind, expected = "wrote-into-callers-slice", "the caller's slice is only read"
+				}
 				res.Violate(Violation{Attrs: map[string]string{"kind": kind, "stack": fmt.Sprint(n), "nf": fmt.Sprint(customNF), "base": pl.BaseName}, Input: in, Observed: observed, Expected: expected, Detail: pl})
 			}
 			// spec-file request: bypasses the middlewares entirely
